@@ -5,8 +5,9 @@ package unit
 // C11 (reload histories) — the bound also holds across configuration reloads
 // of the cache list: a reload may keep the original size (documented: the size
 // of an existing cache is a restart-only setting) or apply the new one, but the
-// resident count may never exceed the largest size ever configured for that
-// cache name.
+// resident count may never exceed the largest size configured for that cache
+// name since it was last created. Up to three caches come and go, singly or
+// several in one reload.
 
 import (
 	"fmt"
@@ -18,10 +19,17 @@ import (
 	"verif/harness/internal/vstat"
 )
 
+type c11ReloadCache struct {
+	Size int  `json:"size"` // size given for the cache in this reload
+	Drop bool `json:"drop"` // the cache is absent from this reload (removed; a later reload re-creates it)
+}
+
 type c11ReloadStep struct {
-	Size    int  `json:"size"`    // size given for the cache in this reload
-	Drop    bool `json:"drop"`    // the cache is absent from this reload (removed; a later reload re-creates it)
-	Inserts int  `json:"inserts"` // distinct new keys requested after the reload
+	Caches  []c11ReloadCache `json:"caches"`
+	Inserts int              `json:"inserts"` // distinct new keys requested from each configured cache after the reload
+	// legacy single-cache form (replay files of earlier rounds)
+	Size int  `json:"size,omitempty"`
+	Drop bool `json:"drop,omitempty"`
 }
 
 type c11ReloadScenario struct {
@@ -31,13 +39,22 @@ type c11ReloadScenario struct {
 func genC11Reload(t *rapid.T) c11ReloadScenario {
 	sizes := []int{1, 3, 5, 7, 8, 9, 64, 100, 512, 1000, 1023, 1024, 1025, 2048, 4096}
 	n := rapid.IntRange(2, 5).Draw(t, "steps")
+	nc := rapid.SampledFrom([]int{1, 2, 3, 3}).Draw(t, "caches")
+	dropAll := rapid.IntRange(0, 2).Draw(t, "dropAll") == 0
 	sc := c11ReloadScenario{}
 	for i := 0; i < n; i++ {
-		sc.Steps = append(sc.Steps, c11ReloadStep{
-			Size:    rapid.SampledFrom(sizes).Draw(t, "size"),
-			Drop:    i > 0 && rapid.IntRange(0, 7).Draw(t, "drop") == 0,
-			Inserts: rapid.SampledFrom([]int{0, 10, 600, 3000, 9000, 20000}).Draw(t, "inserts"),
-		})
+		st := c11ReloadStep{Inserts: rapid.SampledFrom([]int{0, 10, 600, 3000, 9000, 20000}).Draw(t, "inserts")}
+		all := dropAll && i > 0 && i < n-1 && rapid.IntRange(0, 2).Draw(t, "all") == 0
+		for c := 0; c < nc; c++ {
+			st.Caches = append(st.Caches, c11ReloadCache{
+				Size: rapid.SampledFrom(sizes).Draw(t, "size"),
+				Drop: all || (i > 0 && rapid.IntRange(0, 7).Draw(t, "drop") == 0),
+			})
+		}
+		if nc > 1 && st.Inserts > 9000 {
+			st.Inserts = 9000
+		}
+		sc.Steps = append(sc.Steps, st)
 	}
 	return sc
 }
@@ -45,49 +62,75 @@ func genC11Reload(t *rapid.T) c11ReloadScenario {
 func execC11Reload(sc c11ReloadScenario) *vstat.Outcome {
 	out := &vstat.Outcome{}
 	ds := cache.NewDispatchers(nil)
-	maxSize := 0
-	created := false
+	maxSize := map[int]int{}
+	created := map[int]bool{}
+	prevSize := map[int]int{}
 	keySeq := 0
-	shrinkAcross := false
-	prevSize := 0
+	shrinkAcross, recreatedSmaller, droppedTogether := false, false, false
+	lastMax := map[int]int{}
 	for i, st := range sc.Steps {
+		if len(st.Caches) == 0 {
+			st.Caches = []c11ReloadCache{{Size: st.Size, Drop: st.Drop}}
+		}
 		opts := []cache.DispatcherOption{{Name: "other", Size: 10}}
-		if !st.Drop {
-			opts = append(opts, cache.DispatcherOption{Name: "c11", Size: st.Size})
+		dropped := 0
+		for c, cc := range st.Caches {
+			if !cc.Drop {
+				opts = append(opts, cache.DispatcherOption{Name: fmt.Sprintf("c11-%d", c), Size: cc.Size})
+			} else if created[c] {
+				dropped++
+			}
+		}
+		if dropped >= 2 {
+			droppedTogether = true
 		}
 		ds.Reset(opts)
-		if st.Drop {
-			created = false
-			maxSize = 0
-			continue
-		}
-		if !created {
-			created = true
-			maxSize = 0
-		}
-		if st.Size > maxSize {
-			maxSize = st.Size
-		}
-		if prevSize >= 1024 && st.Size < 1024 {
-			shrinkAcross = true
-		}
-		prevSize = st.Size
-		d := ds.Get("c11")
-		if d == nil {
-			out.Violate("C11", "missing", "step %d: the cache is configured but not registered", i)
-			return out
-		}
-		for j := 0; j < st.Inserts; j++ {
-			keySeq++
-			d.GetHTTPCache([]byte(fmt.Sprintf("GET reload.test /k%d", keySeq)))
-			if j%500 == 499 || j == st.Inserts-1 {
-				total := 0
-				for _, n := range d.VerifLen() {
-					total += n
+		for c, cc := range st.Caches {
+			name := fmt.Sprintf("c11-%d", c)
+			if cc.Drop {
+				if created[c] {
+					lastMax[c] = maxSize[c]
 				}
-				if total > maxSize {
-					out.Violate("C11", "bound-after-reload", "step %d (size %d in this reload, largest size ever configured for this cache %d): %d keys are resident", i, st.Size, maxSize, total)
-					return out
+				created[c] = false
+				maxSize[c] = 0
+				prevSize[c] = 0
+				if ds.Get(name) != nil && i > 0 {
+					// not part of the bound, but what the next oracle builds on
+					out.Class("dropped_cache_still_registered")
+				}
+				continue
+			}
+			if !created[c] {
+				created[c] = true
+				maxSize[c] = 0
+				if lastMax[c] > cc.Size {
+					recreatedSmaller = true
+				}
+			}
+			if cc.Size > maxSize[c] {
+				maxSize[c] = cc.Size
+			}
+			if prevSize[c] >= 1024 && cc.Size < 1024 {
+				shrinkAcross = true
+			}
+			prevSize[c] = cc.Size
+			d := ds.Get(name)
+			if d == nil {
+				out.Violate("C11", "missing", "step %d: cache %s is configured but not registered", i, name)
+				return out
+			}
+			for j := 0; j < st.Inserts; j++ {
+				keySeq++
+				d.GetHTTPCache([]byte(fmt.Sprintf("GET reload.test /k%d", keySeq)))
+				if j%500 == 499 || j == st.Inserts-1 {
+					total := 0
+					for _, n := range d.VerifLen() {
+						total += n
+					}
+					if total > maxSize[c] {
+						out.Violate("C11", "bound-after-reload", "step %d, cache %s (size %d in this reload, largest size configured for this cache since it was created %d): %d keys are resident", i, name, cc.Size, maxSize[c], total)
+						return out
+					}
 				}
 			}
 		}
@@ -95,6 +138,12 @@ func execC11Reload(sc c11ReloadScenario) *vstat.Outcome {
 	out.NonTrivial = len(sc.Steps) >= 2 && keySeq > 0
 	if shrinkAcross {
 		out.Class("size_lowered_across_1024")
+	}
+	if recreatedSmaller {
+		out.Class("recreated_with_a_smaller_size")
+	}
+	if droppedTogether {
+		out.Class("two_caches_dropped_in_one_reload")
 	}
 	return out
 }
